@@ -153,7 +153,7 @@ func (s *Store) MarkSeen(mailbox, id string) (err error) {
 	s.withMailbox(mailbox, true, func(mb *mbox) {
 		m := mb.messages[id]
 		if m != nil {
-			m.seen = true
+			m.seen.Store(true)
 		} else {
 			err = storage.ErrNotExist
 		}
